@@ -26,15 +26,16 @@ def generate_source_code(docstring, parsed):
         defined.update(x.name for x in ancestor.body if getattr(x, 'name', None))
         ancestor = ancestor.extends
 
-    # So do the parameters of its rules and classes (a parameter can be called).
+    # Convert the parse tree into a list of parsing expressions. Within a rule
+    # or class, its parameters shadow the constructors, too (a parameter can be
+    # called).
+    nodes = []
     for stmt in parsed.body:
-        defined.update(getattr(stmt, 'params', None) or ())
-
-    # Convert the parse tree into a list of parsing expressions.
-    nodes = parser.transform(
-        parsed.body,
-        lambda tree: _create_parsing_expression(tree, defined),
-    )
+        visible = defined | set(getattr(stmt, 'params', None) or ())
+        nodes.append(parser.transform(
+            stmt,
+            lambda tree: _create_parsing_expression(tree, visible),
+        ))
 
     out = _CodeBuilder()
     out.add_docstring(docstring)
